@@ -291,6 +291,34 @@ func runC20(r *rt.Runner) {
 		}
 		c.Count("boundary sets")
 	})
+	// (b2) stems whose two edges are up to 65535 apart: the edges are 16-bit
+	// values, the width written into the charstring is their difference
+	r.Case("stems/wide", func(c *rt.C) {
+		edges := []funit.Int16{-32768, -32767, -20000, -16385, -16384, -16383, -1, 0, 1, 16383, 16384, 16385, 20000, 32766, 32767}
+		rng := c.Rand()
+		for i := 0; i < 12; i++ {
+			edges = append(edges, funit.Int16(rng.IntN(65536)-32768))
+		}
+		for _, fm := range allFormats {
+			f := emptyFont()
+			for i, a := range edges {
+				for j, b := range edges {
+					g := &type1.Glyph{WidthX: 500}
+					g.HStem = []funit.Int16{a, b}
+					g.VStem = []funit.Int16{b, a}
+					if (i+j)%5 == 0 {
+						// two stems per direction
+						g.HStem = append(g.HStem, edges[(i+3)%len(edges)], edges[(j+7)%len(edges)])
+						g.VStem = append(g.VStem, edges[(j+1)%len(edges)], edges[(i+2)%len(edges)])
+					}
+					f.Glyphs[fmt.Sprintf("w%d_%d", i, j)] = g
+				}
+			}
+			checkWrittenFont(c, f, stdEnc, fm.f, fm.name)
+			c.Count("fonts with stems up to 65535 units wide")
+		}
+		c.Nontrivial([]byte("stems-wide"), nil)
+	})
 	// (c) sampled 32-bit integers
 	nSamp := r.N(600, 6000)
 	for k := 0; k < nSamp; k++ {
